@@ -1114,20 +1114,26 @@ class Node:
         # if mapper is None:
         #     mapper = self._tree.DEFAULT_DESERIALZATION_MAPPER
         assert not self._children
-        for item in obj:
-            if mapper:
-                # mapper may add item['data_id']
-                # data = mapper(parent=self, item=item)
-                data_obj = call_mapper(mapper, self, item)
-            else:
-                data_obj = item["data"]
+        try:
+            for item in obj:
+                if mapper:
+                    # mapper may add item['data_id']
+                    # data = mapper(parent=self, item=item)
+                    data_obj = call_mapper(mapper, self, item)
+                else:
+                    data_obj = item["data"]
 
-            child = self.append_child(
-                data_obj, data_id=item.get("data_id"), node_id=item.get("node_id")
-            )
-            child_items = item.get("children")
-            if child_items:
-                child.from_dict(child_items, mapper=mapper)
+                child = self.append_child(
+                    data_obj, data_id=item.get("data_id"), node_id=item.get("node_id")
+                )
+                child_items = item.get("children")
+                if child_items:
+                    child.from_dict(child_items, mapper=mapper)
+        except Exception:
+            # A refused item (e.g. two siblings with the same data_id) must not
+            # leave the nodes that were created so far behind
+            self.remove_children()
+            raise
         return
 
     def _visit_pre(self, callback, memo) -> None:
